@@ -21,10 +21,13 @@ def gen_file(rnd, kind, delim, malformed=False):
             if e is not None:
                 t = e
         else:
+            # a '-' only for a pair whose '+' row is really in the file (a log in which a '-' has no '+' before it is
+            # outside the properties: C10 speaks of well-formed logs)
             o = '+' if (u, v) not in latest or rnd.random() < 0.6 else '-'
             f = [str(u), str(v), o, str(t)]
             row = (u, v, o, t)
-            latest[(u, v)] = t
+            if o == '+' and not (0.5 <= r < 0.70 or 0.88 <= r < 0.94 or (r >= 0.94 and malformed)):   # the branches below that drop the row
+                latest[(u, v)] = t
         if r < 0.5:
             lines.append(d.join(f)); rows.append(row)
         elif r < 0.58:
@@ -84,6 +87,11 @@ class C18(PropBase):
             delim = rnd.choice([None, ' ', ',', '\t', ';'])
             lines, rows = gen_file(rnd, kind, delim, malformed=(i % 7 == 0))
             yield dict(kind=kind, delim=delim, lines=lines, rows=rows, directed=rnd.random() < 0.5, keys=rnd.random() < 0.4)
+
+    def out_of_scope(self, op, impl, model):
+        # a log in which a '-' row has no '+' row of its pair before it is outside the properties (C10: well-formed
+        # logs); the generator avoids them, and what the reader does with one (KeyError today) is not compared
+        return op[0] == 'rtext' and 'KeyError' in (impl, model)
 
     def program(self, case):
         if case['kind'] == 'compact':
